@@ -67,10 +67,11 @@ func TestRegressOraclePins(t *testing.T) {
 }
 
 type chunked struct {
-	data  []byte
-	pos   int
-	sizes []int
-	i     int
+	data   []byte
+	pos    int
+	sizes  []int
+	i      int
+	eofTog bool // the last bytes are returned together with io.EOF
 }
 
 func (c *chunked) Read(p []byte) (int, error) {
@@ -87,6 +88,9 @@ func (c *chunked) Read(p []byte) (int, error) {
 	}
 	copy(p, c.data[c.pos:c.pos+n])
 	c.pos += n
+	if c.eofTog && c.pos == len(c.data) {
+		return n, io.EOF
+	}
 	return n, nil
 }
 
@@ -94,12 +98,14 @@ type putCfg struct {
 	Chunks  []int `json:"chunks"` // nil: bytes.Reader (one big write)
 	Flushes int   `json:"flushes"`
 	CRC     bool  `json:"crc"`
+	EOFTog  bool  `json:"eof_with_data"`
 }
 
 func drawCfg(t *rapid.T, L int, label string) putCfg {
 	c := putCfg{Flushes: rapid.IntRange(1, 16).Draw(t, label+"_flushes"), CRC: rapid.Bool().Draw(t, label+"_crc")}
 	if rapid.IntRange(0, 3).Draw(t, label+"_one") > 0 {
 		c.Chunks = rapid.SliceOfN(rapid.SampledFrom([]int{1, 7, L - 1, L, L + 1, 2 * L, 3*L + 1, 32 * 1024}), 1, 4).Draw(t, label+"_chunks")
+		c.EOFTog = rapid.IntRange(0, 2).Draw(t, label+"_eoftog") == 0
 	}
 	return c
 }
@@ -108,7 +114,7 @@ func source(content []byte, c putCfg) io.Reader {
 	if c.Chunks == nil {
 		return bytes.NewReader(content)
 	}
-	return &chunked{data: content, sizes: c.Chunks}
+	return &chunked{data: content, sizes: c.Chunks, eofTog: c.EOFTog}
 }
 
 func newFs(store *memstore.Store, L uint32, c putCfg) (cafs.Fs, error) {
@@ -176,11 +182,15 @@ func TestPropKeyDifferential(t *testing.T) {
 		var first string
 		for i, c := range cfgs {
 			be := memstore.NewBackend("blob")
+			preseededSame := false
 			if preseed && i > 0 {
 				// the store already holds unrelated content, and a prefix of this content
 				ofs, _ := newFs(be.View("pre"), L, putCfg{Flushes: 2})
-				_, _ = ofs.Put(context.Background(), bytes.NewReader(hx.Expand(spec.Seed+1, spec.Size, 0, 0)))
+				unrelated := hx.Expand(spec.Seed+1, spec.Size, 0, 0)
+				_, _ = ofs.Put(context.Background(), bytes.NewReader(unrelated))
 				_, _ = ofs.Put(context.Background(), bytes.NewReader(content[:len(content)/2]))
+				// tiny contents can coincide with what was pre-seeded: then the content IS present
+				preseededSame = bytes.Equal(unrelated, content) || len(content)/2 == len(content)
 			}
 			fs, err := newFs(be.View("w"), L, c)
 			if err != nil {
@@ -206,7 +216,7 @@ func TestPropKeyDifferential(t *testing.T) {
 			} else if res.Key.String() != first {
 				t.Fatalf("key depends on configuration: %s vs %s", res.Key, first)
 			}
-			if res.Found && !(preseed && i > 0 && len(content) == 0) { // the preseeded prefix of empty content is the content
+			if res.Found && !preseededSame {
 				t.Fatalf("Found=true on a store that never held this content (cfg %+v)", c)
 			}
 		}
